@@ -1046,6 +1046,65 @@ def name_confusion(events, opens):
     return False
 
 
+def exit_event(events, inv, i_call):
+    """index of the event at which the invocation that starts at i_call ends: its `return` event, or — when it ends by
+    raising — the `exception` event right before that return (arg None)."""
+    f, v = events[i_call]['frame'], inv[i_call]
+    own = []
+    for j in range(i_call + 1, len(events)):
+        e = events[j]
+        if e['frame'] == f and inv[j] == v:
+            own.append(j)
+            if e['kind'] == 'return':
+                if len(own) >= 2 and own[-2] == j - 1 and events[j - 1]['kind'] == 'exception' \
+                        and e.get('argtext') == 'None':
+                    return j - 1
+                return j
+    return None
+
+
+def caught_completes(events, method_opens):
+    """instance of C15/caught-exception-completes: an invocation whose call event opens a deferred METHOD capture sees
+    an own `exception` event that is not its end (it catches the exception and goes on): the capture is completed
+    there, with the caught exception instead of the invocation's result."""
+    inv = invocations(events)
+    for i in sorted(method_opens):
+        if events[i]['kind'] != 'call':
+            continue
+        x = exit_event(events, inv, i)
+        f, v = events[i]['frame'], inv[i]
+        for j in range(i + 1, len(events)):
+            e = events[j]
+            if e['frame'] == f and inv[j] == v:
+                if e['kind'] == 'exception' and j != x:
+                    return True
+                if e['kind'] == 'return':
+                    break
+    return False
+
+
+def stacked_strict(events, opens):
+    """NoStackStrict violated: both kinds of own context pending at an own exception event or at the end of the body"""
+    st = []
+    for i, e in enumerate(events):
+        k = e['kind']
+        if k == 'call':
+            st.append([i in opens, False])
+        elif not st:
+            continue
+        elif k == 'line':
+            st[-1][1] = i in opens
+        elif k == 'exception':
+            if st[-1][0] and st[-1][1]:
+                return True
+            st[-1] = [False, False]
+        elif k == 'return':
+            if st[-1][0] and st[-1][1]:
+                return True
+            st.pop()
+    return False
+
+
 def stacked(events, opens):
     """NoStack violated: some invocation reaches its own plain `return` event with both its call-opened and a
     line-opened context pending.  `opens` = set of event indices at which a context is pushed (by the statement's
